@@ -14,6 +14,7 @@ fn focus_of(s: &str) -> gen::Focus {
     match s {
         "compile" => gen::Focus::Compile,
         "defaults" => gen::Focus::Defaults,
+        "values" => gen::Focus::Values,
         "cycles" => gen::Focus::Cycles,
         "determinism" => gen::Focus::Determinism,
         _ => gen::Focus::Histories,
